@@ -134,6 +134,11 @@ def main():
         ("names", [], ["sp ace/fi le.txt", "\u00dcbung"]),
         ("prefix", ["Clips"], ["Clips_proxy/y.mov"]),
         ("prefix", ["Clips"], ["Clips.txt", "Clips/x.mov"]),
+        # a folder first, then selections whose names merely extend the folder's name (no separator boundary)
+        ("prefix", [], ["Clips", "Clips_proxy", "Clips.txt"]),
+        ("prefix", [], ["Clips", "Clips_proxy/y.mov"]),
+        ("prefix", ["Clips"], ["Clips", "Clips.txt", "Clips_proxy"]),
+        ("deep", [], ["A", "c.txt", "z"]),
         ("levels", ["L1/L2/L3", "L1/L2", "L1"], ["L1/L2/L3/clip.bin"]),
         ("lookalike", [], ["sub"]),
     ]:
